@@ -174,7 +174,11 @@ func cmdEngineTraces(args []string) {
 			// cancel at every observable point of the (last) call: the number of events of an uncancelled
 			// run bounds the number of points
 			last := len(c.Calls) - 1
-			for s := 0; s <= sites+1; s++ {
+			step := 1
+			if sites > 400 {
+				step = sites / 400 // (a run that long is sampled: 400 points)
+			}
+			for s := 0; s <= sites+1; s += step {
 				c2 := *c
 				c2.Calls = append([]CallCfg{}, c.Calls...)
 				c2.Calls[last].CancelAt = s
@@ -192,6 +196,14 @@ func cmdEngineTraces(args []string) {
 			c3.Calls = append([]CallCfg{}, c.Calls...)
 			c3.Calls[last].Deadline = true
 			runOne(&c3)
+			// ... and before every look the engine takes at the context (a look is no observable event: about two per evaluated rule)
+			for k := 1; k <= 2*sites+4 && k <= 800; k++ {
+				c5 := *c
+				c5.Calls = append([]CallCfg{}, c.Calls...)
+				c5.Calls[last].LookAt = k
+				c5.Calls[last].UseCtx = true
+				runOne(&c5)
+			}
 		}
 	}
 	sb, _ := json.Marshal(stats)
